@@ -70,7 +70,7 @@ func runC19(c *an.Ctx) {
 				c.Bad("R1", "RelevantOnly branch present", fn.Pos(), "ProcessLogging has no branch on AuditEngine == RelevantOnly")
 				return
 			}
-			w := an.FindPath(an.PathQuery{Fn: fn, StartBlock: rel, Target: func(x ssa.Instruction) bool { return x == in },
+			w := an.FindPathCorr(an.PathQuery{Fn: fn, StartBlock: rel, Target: func(x ssa.Instruction) bool { return x == in },
 				PruneEdge: func(b *ssa.BasicBlock, si int) bool {
 					ifi, ok := b.Instrs[len(b.Instrs)-1].(*ssa.If)
 					if !ok {
